@@ -144,6 +144,11 @@ theorem feedLine_recordLine (recog : Bytes → Bool) (k : Kw) (hk : OpenSlashKw 
   rw [afterExtend_rec_some k _ toks hnt hrec (by rw [hdl]; exact hraw)]
   simp [hfin]
 
+theorem recordLine_ne_eofMark (toks : List Bytes) : recordLine toks ≠ eofMark := by
+  intro e
+  have := congrArg List.length e
+  simp [recordLine, eofMark] at this
+
 /-- the closing `/` of the keyword. -/
 theorem feedLine_terminator (recog : Bytes → Bool) (k : Kw) (hk : OpenSlashKw k) :
     feedLine recog k [] [] [47] = .done k.terminate false := by
@@ -167,13 +172,14 @@ theorem feedLines_written (recog : Bytes → Bool) : ∀ (tss : List (List Bytes
   induction tss with
   | nil =>
     intro k hk _ rest
-    simp only [List.map_nil, List.nil_append, feedLines, feedLine_terminator recog k hk, List.foldl_nil]
+    simp only [List.map_nil, List.nil_append, List.foldl_nil]
+    rw [feedLines_cons recog k [] [] [47] rest (by decide), feedLine_terminator recog k hk]
     simp
   | cons toks tss ih =>
     intro k hk h rest
     obtain ⟨hne, hsafe⟩ := h toks (by simp)
-    simp only [List.map_cons, List.cons_append, feedLines, feedLine_recordLine recog k hk toks hne hsafe,
-      List.foldl_cons]
+    simp only [List.map_cons, List.cons_append, List.foldl_cons]
+    rw [feedLines_cons recog k [] [] _ _ (recordLine_ne_eofMark toks), feedLine_recordLine recog k hk toks hne hsafe]
     exact ih (k.addRecord toks) (openSlash_addRecord hk toks) (fun x hx => h x (by simp [hx])) rest
 
 theorem foldl_addRecord_records : ∀ (tss : List (List Bytes)) (k : Kw),
